@@ -50,8 +50,10 @@ Value& MemberCONCATExpression::value(Context& ctx) const
       {
         const Type& vt = val.type();
         const Type& at = a0.type();
+        /* the minor type of a tuple type is the hash of its declaration; 0 stands for an opaque one */
         bool same = (at.major() == vt.major()
-                && (at.minor() == vt.minor() || at.major() == Type::ROWTYPE));
+                && (at.minor() == vt.minor()
+                    || (at.major() == Type::ROWTYPE && (at.minor() == 0 || vt.minor() == 0))));
         if (!same || (at.level() != vt.level() && (at.level() != 0 || vt.level() != 1)))
           throw RuntimeError(EXC_RT_TYPE_MISMATCH_S, vt.levelDown().typeName().c_str());
       }
